@@ -5,7 +5,7 @@ ids="$@"; [ -z "$ids" ] && ids=$(ls seeded)
 for sid in $ids; do
   d=seeded/$sid
   prop=$(python3 -c "import json;print(json.load(open('$d/meta.json'))['property'])")
-  if ! git -C /repo apply --check "$d/patch.diff" 2>/dev/null; then echo "$sid $prop DOES-NOT-APPLY-AT-HEAD"; continue; fi
+  if ! git -C /repo apply --check "$(pwd)/$d/patch.diff" 2>/dev/null; then echo "$sid $prop DOES-NOT-APPLY-AT-HEAD"; continue; fi
   start=$(date +%s)
   out=$(tools/mutcheck.sh "$d/patch.diff" "$prop" 2>&1)
   v=$(echo "$out" | grep -c '^VIOLATION')
